@@ -76,10 +76,12 @@ def tasks(tier):
     # ... and the order of ghost/neighbour refreshes: emission order of the
     # group template (C03 bounded) and every shipped one_timestep (C04)
     deps = ['dep:C03:determinism', 'dep:C01:sortseg', 'dep:C01:sortflag',
+            'dep:C01:cache',
             'dep:C17:apply', 'dep:C03:bounded', 'dep:C04:traces',
             'dep:C04:accel']
     return ['frames:%s' % m for m in mods] + ['reorder', 'wiring',
-                                              'refresh', 'canary'] + deps
+                                              'refresh', 'scratch',
+                                              'canary'] + deps
 
 
 def run_task(task, ctx):
@@ -103,6 +105,8 @@ def run_task(task, ctx):
         return task_refresh(ctx, repo)
     if task == 'wiring':
         return task_wiring(ctx, repo)
+    if task == 'scratch':
+        return task_scratch(ctx, repo)
     if task == 'canary':
         d = z3.Int('d')
         ctx.canary('canary.must_fail', Obligation('c', [d >= 0],
@@ -265,6 +269,158 @@ def task_wiring(ctx, repo):
         'wiring', [], z3.BoolVal(bool(ok)), m.path)],
         info='%d CPU NNPS constructor calls; %s' % (len(seen),
                                                    '; '.join(bad)[:300]))
+
+
+# ---------------------------------------------------------- thread scratch
+def task_scratch(ctx, repo):
+    """Per-thread scratch memory of the generated pair loop.  Every
+    list-valued entry VAR of a group's context (the precomputed vectors XIJ,
+    DWIJ, ... and declared vector temporaries), *whether or not an equation
+    names it in a loop signature* (GRADIENT(XIJ, ...) reads XIJ for a loop
+    that only names DWIJ),
+      - is allocated with one aligned slot per thread
+            cdef DoubleArray _VAR = DoubleArray(aligned(L, 8)*self.n_threads)
+            cdef double* VAR = _VAR.data
+        (CythonGroup._get_variable_decl, mode 'declare'), and
+      - is pointed at the running thread's slot at the top of the parallel
+        block:   VAR = &_VAR.data[thread_id*aligned(L, 8)]
+        (CythonGroup.get_variable_array_setup);
+    the template puts `thread_id = threadid()` and that set-up first in the
+    parallel block and uses self.nbrs[thread_id] for the neighbour buffer."""
+    from fractions import Fraction
+    EQ = 'pysph.sph.equation'
+    m = repo.module(EQ)
+    W = m.path
+    cls = 'CythonGroup'
+
+    def eqn(var, methods):
+        attrs = dict(var_name=var)
+        for k in methods:
+            attrs[k] = ('method', var, k)
+        o = SymObject(None, attrs, var)
+        o.argspec = methods
+        return o
+    e0 = eqn('eq0', {'loop': ['self', 'd_idx', 'd_arho', 's_idx', 's_m',
+                              'DWIJ', 'VIJ']})
+    e1 = eqn('eq1', {'initialize': ['self', 'd_idx', 'd_au'],
+                     'loop_all': ['self', 'd_idx', 'NBRS', 'N_NBRS']})
+    eqs = {'eq0': e0, 'eq1': e1}
+
+    def argspec(e, s_, a, k, n):
+        meth = a[0]
+        return SymObject(None, dict(args=list(eqs[meth[1]].argspec[meth[2]])),
+                         'spec')
+    z = Fraction(0)
+    contexts = {
+        'transitive': dict(DWIJ=[z, z, z], VIJ=[z, z, z], XIJ=[z, z, z],
+                           RIJ=z, HIJ=z, n_iter=3),
+        'temporaries': dict(tmp=(z, z), mat=[z] * 9, DWIJ=[z, z, z],
+                            one=[z], HIJ=Fraction(1, 2)),
+        'none': dict(RIJ=z, k=1),
+        'empty': {},
+    }
+    obs = []
+    f1 = m.methods(cls)['get_variable_array_setup']
+    f2 = m.methods(cls)['_get_variable_decl']
+    ctx.function(m, f1, cls + '.get_variable_array_setup')
+    ctx.function(m, f2, cls + '._get_variable_decl')
+    try:
+        for tag, cx in sorted(contexts.items()):
+            vecs = sorted(k for k, v in cx.items()
+                          if isinstance(v, (list, tuple)))
+            obj = SymObject(cls, dict(equations=[e0, e1], context=dict(cx),
+                                      name='grp', precomputed={}), 'self')
+            obj.module = m.name
+            ex = Executor(repo, m, qualname=cls + '.get_variable_array_setup',
+                          merge=False, externals={'getfullargspec': argspec})
+            outs = ex.exec_function(f1, dict(self=obj))
+            got = outs[0].value if len(outs) == 1 and \
+                outs[0].kind == 'return' else None
+            want = ['%s = &_%s.data[thread_id*aligned(%d, 8)]' % (
+                v, v, len(cx[v])) for v in vecs]
+            lines = sorted(l.strip() for l in got.split('\n') if l.strip()) \
+                if isinstance(got, str) else None
+            obs.append(Obligation(
+                'setup.%s' % tag, [], z3.BoolVal(lines == sorted(want)), W,
+                extra=dict(emitted=str(got)[:300], wanted=want)))
+            obj = SymObject(cls, dict(equations=[e0, e1], context=dict(cx),
+                                      name='grp', precomputed={}), 'self')
+            obj.module = m.name
+            ex = Executor(repo, m, qualname=cls + '._get_variable_decl',
+                          merge=False, externals={'getfullargspec': argspec})
+            outs = ex.exec_function(f2, dict(self=obj, context=dict(cx),
+                                             mode='declare'))
+            got = outs[0].value if len(outs) == 1 and \
+                outs[0].kind == 'return' else None
+            glines = [l.strip() for l in got.split('\n')] \
+                if isinstance(got, str) else []
+            ok = isinstance(got, str)
+            for v in vecs:
+                a = ('cdef DoubleArray _%s = DoubleArray(aligned(%d, 8)*'
+                     'self.n_threads)' % (v, len(cx[v])))
+                b = 'cdef double* %s = _%s.data' % (v, v)
+                ok = ok and a in glines and b in glines and \
+                    glines.index(a) < glines.index(b)
+            # nothing else is declared as a scratch array
+            ok = ok and sum(1 for l in glines if 'DoubleArray' in l) == \
+                len(vecs)
+            obs.append(Obligation('declare.%s' % tag, [], z3.BoolVal(bool(ok)),
+                                  W, extra=dict(emitted=str(got)[:400])))
+    except VCError as e:
+        ctx.outside('scratch', str(e))
+        return
+    # the template
+    import os
+    from pyvc.repo import REPO_ROOT
+    tp = os.path.join(REPO_ROOT, 'pysph', 'sph', 'acceleration_eval_cython.mako')
+    src = open(tp).read().split('\n')
+    blocks = [i for i, l in enumerate(src)
+              if 'helper.get_parallel_block()' in l]
+    ok = bool(blocks)
+    why = []
+    for i in blocks:
+        body = [l.strip() for l in src[i + 1:i + 4]]
+        if body[:2] != ['thread_id = threadid()',
+                        '${indent(eq_group.get_variable_array_setup(), 1)}'] \
+                or not body[2].startswith('for d_idx in'):
+            ok = False
+            why.append('line %d: parallel block starts with %r' % (i + 2,
+                                                                   body))
+    text = '\n'.join(src)
+    if 'nnps.get_nearest_neighbors(d_idx, <UIntArray>self.nbrs[thread_id])' \
+            not in text or text.count('self.nbrs[thread_id]') < 3:
+        ok = False
+        why.append('neighbour buffer is not self.nbrs[thread_id]')
+    obs.append(Obligation('template.parallel_block', [], z3.BoolVal(ok), tp,
+                          extra=dict(why='; '.join(why)[:300])))
+    ctx.prove('scratch.every_vector_is_thread_private', obs,
+              replay=replay_scratch)
+
+
+def replay_scratch(model, ob):
+    script = r"""
+import json, sys, importlib.util
+d = json.load(sys.stdin)
+spec = importlib.util.spec_from_file_location('pysph.sph.equation_ut', d['root'] + '/pysph/sph/equation.py')
+mod = importlib.util.module_from_spec(spec); mod.__package__ = 'pysph.sph'; spec.loader.exec_module(mod)
+class E0(mod.Equation):
+    def loop(self, d_idx, d_arho, s_idx, s_m, DWIJ, VIJ):
+        d_arho[d_idx] += s_m[s_idx]*(VIJ[0]*DWIJ[0])
+g = mod.CythonGroup([E0('f', ['f'])])
+g.context = mod.Context(DWIJ=[0.0]*3, VIJ=[0.0]*3, XIJ=[0.0]*3, RIJ=0.0)
+got = sorted(l.strip() for l in g.get_variable_array_setup().split('\n') if l.strip())
+want = sorted('%s = &_%s.data[thread_id*aligned(3, 8)]' % (v, v) for v in ('DWIJ', 'VIJ', 'XIJ'))
+print(json.dumps(dict(bad=None if got == want else dict(emitted=got, wanted=want, note='XIJ is read by GRADIENT(XIJ, ...) although no loop names it'))))
+"""
+    from pyvc.repo import REPO_ROOT
+    try:
+        r = native.run_venv(script, dict(root=REPO_ROOT), timeout=600)
+    except Exception as e:
+        return dict(reproduced=False, note=str(e)[-300:])
+    if r.get('bad'):
+        return dict(reproduced=True, how='real CythonGroup.'
+                    'get_variable_array_setup', **r['bad'])
+    return dict(reproduced=False)
 
 
 # ------------------------------------------------------------------ refresh
